@@ -176,6 +176,21 @@ func checkTranslateIndexedFields(c *Ctx, res *report.Result, f *ssa.Function) {
 			}
 		}
 	}
+	if next != nil && len(updates) > 0 {
+		// the input map written in place (also when a fresh map exists): a rename inserted while the map is being
+		// ranged over may be visited again and renamed twice (chained mappings a->b, b->c), and the caller's message
+		// is mutated even when the result is discarded
+		inPlace := false
+		for _, u := range updates {
+			if flow.ResolveLoad(u.Map) == ssa.Value(in) {
+				inPlace = true
+				res.Viol(rule, "translateIndexedFields: input map is never written", instrPos(c.Prog, u), "the input map is written while it is being ranged over: an inserted renamed key can be visited again and renamed a second time")
+			}
+		}
+		if inPlace && mk == nil {
+			return
+		}
+	}
 	if mk == nil || next == nil || len(updates) == 0 {
 		res.Undec(rule, "translateIndexedFields: shape", fnPos(c.Prog, f), "expected a fresh map, a range over the input and map stores")
 		return
